@@ -113,6 +113,15 @@ func genC05(t *core.Tape, tier string) *Scenario {
 			if t.Bool(1, 2, "forwarded.no.encoding") {
 				delete(p.HErr.ProxyMeta, "Content-Encoding")
 			}
+			if t.Bool(1, 2, "forwarded.grpc.backend") {
+				// ... of a gRPC backend that compressed with an algorithm of its own
+				p.HErr.ProxyMeta = http.Header{
+					"Content-Type":         {"application/grpc+proto"},
+					"Grpc-Encoding":        {"zl"},
+					"Grpc-Accept-Encoding": {"zl,gzip"},
+					"Date":                 {"Mon, 28 Sep 2026 10:00:00 GMT"},
+				}
+			}
 			sc.Notes["forwarded_client_error"]++
 		}
 		if p.Kind == KServer || p.Kind == KBidi {
@@ -132,6 +141,18 @@ func genC05(t *core.Tape, tier string) *Scenario {
 			}
 			p.HProg = prog
 		}
+	}
+	if mode == 2 && p.HErr == nil && (p.Kind == KUnary || p.Kind == KClient) && t.Bool(1, 5, "forwarded.response") {
+		// the gateway pattern, success flavour: the handler returns the
+		// *Response a backend client gave it, header block and all
+		p.RespHeader = p.RespHeader.Clone()
+		if p.RespHeader == nil {
+			p.RespHeader = http.Header{}
+		}
+		for k, v := range map[string]string{"Content-Type": "application/grpc+proto", "Content-Length": "7", "Grpc-Encoding": "zl", "Grpc-Accept-Encoding": "zl,gzip", "Date": "Mon, 28 Sep 2026 10:00:00 GMT"} {
+			p.RespHeader.Set(k, v)
+		}
+		sc.Notes["forwarded_response"]++
 	}
 	o := ref.EncOpts{PadBin: t.Bool(1, 2, "padbin"), UpperHex: t.Bool(1, 2, "upperhex"), LowerKeys: t.Bool(1, 2, "lowerkeys"), BareCT: t.Bool(1, 3, "barect"), OmitDetails: t.Bool(1, 2, "omitdetails"), NameIdentity: t.Bool(1, 3, "nameidentity")}
 	compressEvery := t.Choose(3, "compress.every")
@@ -339,6 +360,30 @@ func checkC05(w *World, st core.Status, r *RunResult) []Violation {
 				add("handler-response-not-conformant", fmt.Sprintf("HTTP %d headers %v body %q trailers %v: %v", ex.Status, ex.RespHeader, clip(ex.Down.Bytes(), 100), ex.Trailer, err))
 				continue
 			}
+			// the encoding the response names is one the client used or
+			// advertised, and it is named once
+			for _, key := range []string{"Grpc-Encoding", "Connect-Content-Encoding", "Content-Encoding"} {
+				vals := ex.RespHeader[key]
+				if len(vals) > 1 {
+					add("handler-response-not-conformant", fmt.Sprintf("%s appears %d times: %q", key, len(vals), vals))
+				}
+				for _, v := range vals {
+					if v == "" || v == "identity" || v == "gzip" {
+						continue
+					}
+					ok := false
+					for _, rk := range []string{"Grpc-Encoding", "Connect-Content-Encoding", "Content-Encoding", "Grpc-Accept-Encoding", "Connect-Accept-Encoding", "Accept-Encoding"} {
+						for _, rv := range ex.ReqHeader[rk] {
+							for _, name := range strings.FieldsFunc(rv, func(r rune) bool { return r == ',' || r == ' ' }) {
+								ok = ok || name == v
+							}
+						}
+					}
+					if !ok {
+						add("handler-response-not-conformant", fmt.Sprintf("response names the encoding %q (%s), which the request neither used nor advertised", v, key))
+					}
+				}
+			}
 			got, derr := decodeAll(resp.Messages)
 			if derr != nil {
 				add("handler-response-payload", derr.Error())
@@ -405,7 +450,12 @@ func checkC05(w *World, st core.Status, r *RunResult) []Violation {
 				hdrSet, trlSet = false, false
 			}
 			if hdrSet {
-				if why, ok := containsValues(union, p.RespHeader); !ok {
+				want := p.RespHeader.Clone()
+				for _, k := range []string{"Content-Type", "Content-Length", "Grpc-Encoding", "Grpc-Accept-Encoding", "Date"} {
+					// (a forwarded Response's message headers are not metadata)
+					want.Del(k)
+				}
+				if why, ok := containsValues(union, want); !ok {
 					add("handler-response-header-metadata", why)
 				}
 			}
